@@ -670,6 +670,104 @@ class C10(Check):
     trusted_base = ["hand-written model lean/Verif/C10/Model.lean, tied to delphin.itsdb/tsdb by the correspondence run",
                     "Verif.Common.Py slice model (sliceIndices/rangeList/setSliceSimple)"]
 
+    # ---- pins: constants of the anchored code that the model / oracle hand-code an equivalent of
+    PINNED = [("TableInit", "Table.__init__"), ("InTransaction", "Table._in_transaction"),
+              ("SyncWithFile", "Table._sync_with_file"), ("TableIter", "Table.__iter__"),
+              ("IterSlice", "Table._iterslice"), ("GetItem", "Table._getitem"),
+              ("TableGetitem", "Table.__getitem__"), ("SetItem", "Table.__setitem__"),
+              ("LoadRows", "Table._load_rows"), ("TableLen", "Table.__len__"), ("Clear", "Table.clear"),
+              ("Append", "Table.append"), ("Extend", "Table.extend"), ("Update", "Table.update"),
+              ("Select", "Table.select"), ("EnumRows", "Table._enum_rows"),
+              ("RowInit", "Row.__init__"), ("RowGetitem", "Row.__getitem__"), ("RowIter", "Row.__iter__"),
+              ("RowEq", "Row.__eq__"),
+              ("SuiteInit", "TestSuite.__init__"), ("SuiteInTransaction", "TestSuite.in_transaction"),
+              ("SuiteGetitem", "TestSuite.__getitem__"), ("SelectFrom", "TestSuite.select_from"),
+              ("Reload", "TestSuite.reload"), ("Commit", "TestSuite.commit"), ("Process", "TestSuite.process"),
+              ("AddRow", "_add_row"),
+              ("MapperInit", "FieldMapper.__init__"), ("MapperMap", "FieldMapper.map"),
+              ("MapParse", "FieldMapper._map_parse"), ("MapResult", "FieldMapper._map_result"),
+              ("MapEdge", "FieldMapper._map_edge"), ("MapperCleanup", "FieldMapper.cleanup")]
+
+    def tables(self):
+        """Literals (string/number/None/bool, keyword arguments with literal values), comparison / boolean /
+        unary / arithmetic operators and the names of called builtins min/max/len/enumerate/reversed/sorted
+        of the anchored functions, in source order, read from the live module through its AST.  Left out:
+        docstrings, annotations, everything inside `raise`, `warnings.warn`, `logger.*` and `assert`
+        (message texts).  Multi-line string literals are white-space normalised (they are only `.split()`).
+        Plus default argument values, the FieldMapper key lists of a live instance and module constants."""
+        import ast
+        import inspect
+        import textwrap
+        from .common import tables as T
+
+        def resolve(path):
+            obj = itsdb
+            for part in path.split("."):
+                obj = inspect.getattr_static(obj, part) if isinstance(obj, type) else getattr(obj, part)
+            if isinstance(obj, property):
+                obj = obj.fget
+            return obj
+        builtins_pinned = {"min", "max", "len", "enumerate", "reversed", "sorted", "any", "all", "list", "range"}
+
+        def consts(fn):
+            fdef = ast.parse(textwrap.dedent(inspect.getsource(fn))).body[0]
+            doc = ast.get_docstring(fdef, clean=False)
+            out = []
+
+            def walk(node, kw=None):
+                if isinstance(node, (ast.Raise, ast.Assert)):
+                    return
+                if (isinstance(node, ast.Call) and isinstance(node.func, ast.Attribute)
+                        and (node.func.attr == "warn" or (isinstance(node.func.value, ast.Name)
+                                                          and node.func.value.id == "logger"))):
+                    return
+                if isinstance(node, ast.Constant):
+                    val = node.value
+                    if isinstance(val, str) and val == doc and kw is None:
+                        return
+                    if isinstance(val, str) and "\n" in val and len(val) > 20:
+                        val = " ".join(val.split())
+                    out.append(("%s=%r" % (kw, val)) if kw else (val if isinstance(val, str) else repr(val)))
+                    return
+                if isinstance(node, ast.keyword):
+                    walk(node.value, node.arg if isinstance(node.value, ast.Constant) else None)
+                    return
+                if isinstance(node, ast.Compare):
+                    out.extend("op:" + type(o).__name__ for o in node.ops)
+                if isinstance(node, (ast.BoolOp, ast.UnaryOp, ast.BinOp, ast.AugAssign)):
+                    out.append("op:" + type(node.op).__name__)
+                if isinstance(node, ast.Call) and isinstance(node.func, ast.Name) and node.func.id in builtins_pinned:
+                    out.append("call:" + node.func.id)
+                for ch in ast.iter_child_nodes(node):
+                    if isinstance(node, (ast.FunctionDef, ast.AsyncFunctionDef)) and (
+                            ch is node.args or ch is node.returns or ch in node.decorator_list):
+                        continue
+                    if isinstance(ch, ast.AnnAssign):
+                        if ch.value is not None:
+                            walk(ch.value)
+                        continue
+                    walk(ch)
+            walk(fdef)
+            return out
+        lit = T.lean_strlit
+        lines = []
+        defaults = []
+        for lean_name, path in self.PINNED:
+            fn = resolve(path)
+            lines.append("def c10%sConsts : List String := [%s]" % (lean_name, ", ".join(lit(c) for c in consts(fn))))
+            defaults.append((path, repr(fn.__defaults__), repr(fn.__kwdefaults__)))
+        lines.append("def c10Defaults : List (String × String × String) := [%s]"
+                     % ", ".join("(%s, %s, %s)" % (lit(a), lit(b), lit(c)) for a, b, c in defaults))
+        fm = itsdb.FieldMapper()
+        for nm, val in (("ParseKeys", fm._parse_keys), ("ResultKeys", fm._result_keys), ("RunKeys", fm._run_keys),
+                        ("AffectedTables", fm.affected_tables)):
+            lines.append("def c10%s : List String := [%s]" % (nm, ", ".join(lit(x) for x in val)))
+        lines.append("def c10TaskSelectors : List (String × String × String) := [%s]" % ", ".join(
+            "(%s, %s, %s)" % (lit(k), lit(v[0]), lit(v[1])) for k, v in itsdb._default_task_selectors.items()))
+        lines.append("def c10ErrorBases : List String := [%s]"
+                     % ", ".join(lit(c.__name__) for c in itsdb.ITSDBError.__mro__[:3]))
+        return lines
+
     def setup(self):
         self.base = tempfile.mkdtemp(prefix="c10-", dir="/var/tmp")
         self._sim = {}
